@@ -9,6 +9,7 @@ import (
 	"go/parser"
 	"go/token"
 	"go/types"
+	"strconv"
 	"strings"
 
 	"github.com/traefik/yaegi/interp"
@@ -25,7 +26,7 @@ type obs struct {
 	Panic string `json:"panic,omitempty"`
 
 	RefErr   string   `json:"ref_err,omitempty"`   // go/types error, "" when the program type-checks
-	RefBad   string   `json:"ref_bad,omitempty"`   // a printed constant that go/constant does not evaluate to true
+	RefOut   string   `json:"ref_out,omitempty"`   // the lines go/types + go/constant predict ("?": not determined)
 	RefTypes []string `json:"ref_types,omitempty"` // default types of the %T arguments, in order
 }
 
@@ -118,7 +119,45 @@ func reference(src string, o *obs) {
 		o.RefErr = firstLine(err.Error())
 		return
 	}
+	// what the program prints according to go/types + go/constant; "?" for a line the
+	// reference does not determine (a printed variable)
+	var lines []string
+	// v := <constant expression>: the variable holds that constant, converted to its type
+	vars := map[string]constant.Value{}
+	valueOf := func(e ast.Expr) constant.Value {
+		if v := info.Types[e].Value; v != nil {
+			return v
+		}
+		for {
+			p, ok := e.(*ast.ParenExpr)
+			if !ok {
+				break
+			}
+			e = p.X
+		}
+		switch x := e.(type) {
+		case *ast.Ident:
+			return vars[x.Name]
+		case *ast.BinaryExpr:
+			if x.Op == token.EQL {
+				if id, ok := x.X.(*ast.ParenExpr); ok {
+					if i, ok := id.X.(*ast.Ident); ok && vars[i.Name] != nil && info.Types[x.Y].Value != nil {
+						return constant.MakeBool(constant.Compare(vars[i.Name], token.EQL, info.Types[x.Y].Value))
+					}
+				}
+			}
+		}
+		return nil
+	}
 	ast.Inspect(f, func(n ast.Node) bool {
+		if as, ok := n.(*ast.AssignStmt); ok && as.Tok == token.DEFINE && len(as.Lhs) == 1 && len(as.Rhs) == 1 {
+			if id, ok := as.Lhs[0].(*ast.Ident); ok && strings.HasPrefix(id.Name, "v") {
+				if v := info.Types[as.Rhs[0]].Value; v != nil {
+					vars[id.Name] = v
+				}
+			}
+			return true
+		}
 		call, ok := n.(*ast.CallExpr)
 		if !ok {
 			return true
@@ -132,23 +171,43 @@ func reference(src string, o *obs) {
 		}
 		switch sel.Sel.Name {
 		case "Println":
-			for _, a := range call.Args {
-				tv := info.Types[a]
-				if tv.Value != nil && tv.Value.Kind() == constant.Bool && !constant.BoolVal(tv.Value) && o.RefBad == "" {
-					var b strings.Builder
-					b.WriteString("go/constant evaluates ")
-					b.WriteString(src[fset.Position(a.Pos()).Offset:fset.Position(a.End()).Offset])
-					b.WriteString(" to false")
-					o.RefBad = b.String()
+			line := "?"
+			if len(call.Args) == 1 {
+				if v := valueOf(call.Args[0]); v != nil {
+					switch v.Kind() {
+					case constant.Bool:
+						line = fmt.Sprint(constant.BoolVal(v))
+					case constant.String:
+						line = constant.StringVal(v)
+					case constant.Int:
+						line = v.ExactString()
+					}
 				}
 			}
+			lines = append(lines, line)
 		case "Printf":
-			if len(call.Args) == 2 {
-				o.RefTypes = append(o.RefTypes, types.Default(info.Types[call.Args[1]].Type).String())
+			line := "?"
+			if lit, ok := call.Args[0].(*ast.BasicLit); ok && len(call.Args) == 2 {
+				tv := info.Types[call.Args[1]]
+				switch lit.Value {
+				case `"%T\n"`:
+					t := types.Default(tv.Type)
+					line = t.String()
+					if b, ok := t.(*types.Basic); ok {
+						line = types.Typ[b.Kind()].Name() // rune -> int32, byte -> uint8
+					}
+					o.RefTypes = append(o.RefTypes, line)
+				case `"%q\n"`:
+					if v := valueOf(call.Args[1]); v != nil && v.Kind() == constant.String {
+						line = strconv.Quote(constant.StringVal(v))
+					}
+				}
 			}
+			lines = append(lines, line)
 		}
 		return true
 	})
+	o.RefOut = strings.Join(lines, "\n") + "\n"
 }
 
 func firstLine(s string) string {
